@@ -211,7 +211,7 @@ def main():
                     merged["counters"]["violations_of_other_properties_ignored"] = merged["counters"].get("violations_of_other_properties_ignored", 0) + 1
                     continue
                 v["driver"] = r["driver"]
-                v["replay_args"] = r["args"] + ["--replay", v["case"]] + r.get("replay_extra", [])
+                v["replay_args"] = (r["args"] + ["--replay", v["case"]] + r.get("replay_extra", [])) if r.get("replayable", True) else []
                 ex_ = [x for x in violations if x["key"] == v["key"]]
                 if ex_:
                     ex_[0]["count"] += v.get("count", 1)
